@@ -40,7 +40,15 @@ PARTIAL = ['C06_prefix (the nodes parsed before the first strict error are still
            'C06_prefix_closing2_ws_partial, C06_follow_extension_partial); it rests on two '
            'grammar-independent theorems about every string / context / state: C06_own_error_is_the_collectors and '
            'C06_collector_error_reproduced (a strict collector\'s own rejection of a token is reproduced verbatim by the '
-           'tolerant collector). Arbitrary continuations of extended documents, and valid content nested inside an unfinished '
+           'tolerant collector). An unmatched OPENING delimiter at a top-level item boundary (the text of '
+           'C05_fault_opening2_partial: items l1, whitespace, {, $, \\(, \\[ or $$, items l2, trailing whitespace, never closed): '
+           'C06_prefix_opening2_partial ({) / C06_prefix_opening2_math_partial (math delimiters): the tolerant result is EXACTLY '
+           'the nodes of l1 (and the whitespace), then ONE group / math node spanning to the end of the input whose body is the '
+           'tree of l2 and the trailing whitespace - the valid prefix and what was collected inside the unclosed construct are '
+           'kept; l2 ranges over the EXTENDED grammar, l1 over the CORE grammar only (the only tolerant-mode collector simulation '
+           'that survives a recovered nested error is the core one of Proofs/PrefixSim.v; the lockstep argument needs a strict '
+           'error that carries the collector\'s nodes), \\begin{name} as the inserted delimiter and nested insertion points are '
+           'not covered. Arbitrary continuations of extended documents, and other valid content nested inside an unfinished '
            'construct, are covered by the correspondence of the exact tolerant trees and by the conservative oracle only']
 REFUTED = []
 CASE_TIMEOUT = 10.0
